@@ -2,6 +2,7 @@ mod log;
 mod oracles;
 mod replay;
 mod scripted;
+mod stress;
 
 use serde_json::{json, Value};
 use std::io::{BufRead, Write};
@@ -23,9 +24,26 @@ fn main() {
     let args: Vec<String> = std::env::args().collect();
     let sub = args.get(1).map(|s| s.as_str()).unwrap_or("");
     std::panic::set_hook(Box::new(|_| {}));
-    let cap = log::Capture::new(vec![std::any::type_name::<scripted::Msg>()], false);
-    tracing::subscriber::set_global_default(cap).expect("subscriber");
+    if sub == "stress" {
+        tracing::subscriber::set_global_default(stress::StressCapture).expect("subscriber");
+    } else {
+        let cap = log::Capture::new(vec![std::any::type_name::<scripted::Msg>()], false);
+        tracing::subscriber::set_global_default(cap).expect("subscriber");
+    }
     match sub {
+        "stress" => {
+            let iters: u64 = arg(&args, "--iters").and_then(|s| s.parse().ok()).unwrap_or(100);
+            let seed: u64 = arg(&args, "--seed").and_then(|s| s.parse().ok()).unwrap_or(1);
+            let par: usize = arg(&args, "--par").and_then(|s| s.parse().ok()).unwrap_or(8);
+            let mix: &'static str = match arg(&args, "--mix").as_deref() {
+                Some("async") => "async",
+                Some("blocking") => "blocking",
+                _ => "mixed",
+            };
+            let out = arg(&args, "--out").expect("--out");
+            let (runs, events) = stress::run_stress(iters, seed, par, mix, &out, feats());
+            println!("stress: runs={runs} events={events}");
+        }
         "replay" => {
             let inp = arg(&args, "--in").expect("--in");
             let out = arg(&args, "--out").expect("--out");
